@@ -142,7 +142,9 @@ def oracleC04 (c : TCase) : Verdict :=
     if t.kw == "cbwrite" && !s.callHeadDone then
       (match t.res with
        | ["bytes", _, o] =>
-         let w := s.callHead ++ (if o == "-" || o.startsWith "#" then [] else unhex o)
+         -- a head too long to be logged in full: judged on the full log
+         if o.startsWith "#" then { s with needFull := true } else
+         let w := s.callHead ++ (if o == "-" then [] else unhex o)
          { s with callHead := w, callHeadDone := w.length ≥ 4 && w.drop (w.length - 4) == [13, 10, 13, 10] }
        | _ => s) else
     if t.st != "sendBody" && t.st != "callBody" && t.kw != "proceed" && t.kw != "proceed!" && t.kw != "cinto" then s else
@@ -281,9 +283,18 @@ def oracleC19 (c : TCase) : Verdict :=
       | none => s
       | some (input, cap) =>
         match usedOf t with
-        | none => s
+        | none =>
+          -- a refusal is no progress either: content within the declared length, or content for a chunked body
+          -- that has not been ended, into a buffer with room for it
+          (match s.left with
+           | some left =>
+             if !input.isEmpty && input.length ≤ left && cap ≥ 1 then { s with fail := some s!"content within the remaining length refused: {t.raw}" } else s
+           | none =>
+             if !input.isEmpty && !s.ended && cap ≥ 6 then { s with fail := some s!"content for a chunked body that was not ended refused: {t.raw}" } else s)
         | some used =>
-          if input.isEmpty then { s with ended := true } else
+          -- an empty input ends a chunked body only once the end chunk went out (an output too small for it
+          -- writes nothing and leaves the body open)
+          if input.isEmpty then { s with ended := s.ended || s.left.isSome || (match t.res with | ["bytes", _, out] => out != "-" | _ => true) } else
           match s.left with
           | some left =>
             -- length-delimited: 1 byte of space is enough
@@ -302,6 +313,10 @@ def oracleC19 (c : TCase) : Verdict :=
                 if ilen ≥ m && used < m then { s with fail := some s!"consumed {used}, less than the advertised maximum {m} would have been: {t.raw}" }
                 else if s.nseen < 96 then { s with seen := (cap, ilen, used) :: s.seen, nseen := s.nseen + 1 } else s
               | none => if s.nseen < 96 then { s with seen := (cap, ilen, used) :: s.seen, nseen := s.nseen + 1 } else s
+    | "direct" =>
+      (match t.op, t.res, s.left with
+       | [_, d], ["unit"], some left => { s with left := some (left - d.toNat!) }
+       | _, _, _ => s)
     | _ => s) ({ left := sizedN } : C19St)
   match st.fail with
   | some w => .fail w
